@@ -286,3 +286,7 @@ mod snapshots {
     snapshot!(retry);
     snapshot!(version_negotiation);
 }
+
+#[cfg(all(aws_s2n_quic_verif, test))]
+#[path = "/verif/harness/core/packet_dispatch.rs"]
+mod verif;
